@@ -1,6 +1,7 @@
 import Cbor.Lemmas.HalfAll
 import Cbor.Lemmas.Loaders
 import Cbor.Lemmas.Stream
+import Cbor.Lemmas.Tactics
 /-!
 # C15 — floating-point values keep their exact bits through decode and encode
 
@@ -9,6 +10,7 @@ Floats are IEEE 754 bit patterns.  Decoding of singles/doubles and all encoders 
 (`Ext.decodeHalfBits`, compared with the compiled function on all 65 536 inputs on every run).
 `Spec.Float.*Value` is the exact value a pattern denotes.
 -/
+set_option linter.unusedSimpArgs false
 namespace Props.C15
 open Gen Lemmas
 
@@ -54,49 +56,37 @@ theorem wrapS8_id (x : Int) (h : -128 ≤ x ∧ x < 128) : C.wrapS 8 x = x := by
 `int8_t` narrowing and every `int` operation are in range, both assertions hold, every store is in bounds -/
 theorem half_ok (v : UInt32) (buf : Array UInt8) (off : Nat) (n : UInt64) (h : off + n.toNat ≤ buf.size) :
     cbor_encode_half.ok v buf off n = true := by
+  -- Shape-independent: the exponent field, in either spelling (`(val & 0x7F800000) >> 23` or `(val >> 23) & 0xFF`), is read as
+  -- the natural number `e < 256`; every `if` is split; each branch is closed by whichever of the two arguments applies
+  -- (`first`), using only facts about `e` obtained with `omega` from the branch conditions — no branch order, no hoisting
+  -- or naming of sub-expressions is assumed.
+  have hE1 := exp_field v
+  have helt : ((v >>> (23 : UInt32)) &&& (255 : UInt32)).toNat < 256 := by
+    rw [UInt32.toNat_and]
+    exact Nat.lt_of_le_of_lt Nat.and_le_right (by decide)
+  have hE2 : (((v >>> (23 : UInt32)) &&& (255 : UInt32)).toUInt8).toNat = ((v >>> (23 : UInt32)) &&& (255 : UInt32)).toNat := by
+    rw [UInt32.toNat_toUInt8]; exact Nat.mod_eq_of_lt helt
+  generalize hed : ((v >>> (23 : UInt32)) &&& (255 : UInt32)).toNat = e at hE1 hE2 helt
   unfold cbor_encode_half.ok
   simp only []
-  have hexp := exp_field v
-  generalize ((v &&& (2139095040 : UInt32)) >>> (23 : UInt32)).toUInt8 = ex at hexp
-  have hex := ex.toNat_lt
+  try simp only [hE1, hE2]
   repeat' split
   all_goals (try simp only [enc16_ok _ _ _ _ _ h, Bool.and_true])
-  · rename_i h1 h2
-    -- exponent field all ones and not a NaN: the assertion `mant == 0`
-    have h1' : ex.toNat = 255 := by
-      have : (ex.toNat : Int) = 255 := by simpa using h1
-      omega
-    have hx : ((v >>> (23 : UInt32)) &&& (255 : UInt32)) = 255 := by
-      apply UInt32.toNat_inj.mp; rw [← hexp, h1']; rfl
-    simp only [C.isNaN32, hx, beq_self_eq_true, Bool.true_and] at h2
-    simpa using h2
-  · rename_i h1 h2 h3
-    have h1' : ex.toNat ≠ 255 := fun hh => h1 (by simp [hh])
-    have h2' : ex.toNat ≠ 0 := fun hh => h2 (by simp [hh])
-    have hw := wrapS8_id ((ex.toNat : Int) - 127) (by omega)
-    simp only [hw]
-    simp [C.fitsS]; omega
-  · rename_i h1 h2 h3 h4
-    have h1' : ex.toNat ≠ 255 := fun hh => h1 (by simp [hh])
-    have h2' : ex.toNat ≠ 0 := fun hh => h2 (by simp [hh])
-    have hw := wrapS8_id ((ex.toNat : Int) - 127) (by omega)
-    simp only [hw] at h3 h4 ⊢
-    have h3' : ¬ ((ex.toNat : Int) - 127 < -24) := by have := h3; simp at this; omega
-    have h4' : ((ex.toNat : Int) - 127 < -14) := by have := h4; simp at this; omega
-    generalize ((v &&& (2147483648 : UInt32)) >>> (16 : UInt32)).toUInt16 = s16
-    have hidx : ((24 : UInt32) + C.toU32 ((ex.toNat : Int) - 127)).toNat < 32 := by
-      simp [C.toU32, UInt32.toNat_add]; omega
-    generalize ((1 : UInt32) <<< UInt32.ofNat ((24 : UInt32) + C.toU32 ((ex.toNat : Int) - 127)).toNat).toUInt16 = a16
-    generalize ((((v &&& (8388607 : UInt32)) >>> UInt32.ofNat (-((ex.toNat : Int) - 127) - 2).toNat) + 1) >>> (1 : UInt32)).toUInt16 = b16
-    have ha := a16.toNat_lt; have hb := b16.toNat_lt
-    simp [C.fitsS, hidx, C.toU32, UInt32.toNat_add] at hidx ⊢
-    omega
-  · rename_i h1 h2 h3 h4
-    have h1' : ex.toNat ≠ 255 := fun hh => h1 (by simp [hh])
-    have h2' : ex.toNat ≠ 0 := fun hh => h2 (by simp [hh])
-    have hw := wrapS8_id ((ex.toNat : Int) - 127) (by omega)
-    simp only [hw]
-    simp [C.fitsS]; omega
+  all_goals (try rfl)
+  all_goals cnorm
+  all_goals first
+    | (-- exponent field all ones and not a NaN: the assertion `mant == 0`
+       have hx : ((v >>> (23 : UInt32)) &&& (255 : UInt32)) = 255 :=
+         UInt32.toNat_inj.mp (by rw [hed]; simp; omega)
+       have hN : C.isNaN32 v = false := by assumption
+       simp [C.isNaN32, hx] at hN
+       simp [hN]
+       done)
+    | (-- normal numbers: `exp - 127` fits `int8_t`, so the narrowing is the identity; the rest is linear arithmetic
+       have hw := wrapS8_id ((e : Int) - 127) (by omega)
+       simp only [hw] at *
+       simp [C.fitsS, C.toU32, UInt32.toNat_add] at *
+       omega)
 
 /-- **Encoding to half precision is total**: any `float` produces exactly three bytes (given room for them)
 and no operation on the way is undefined. -/
